@@ -1,11 +1,5 @@
-mod dbx;
-mod engine;
-mod jsonx;
-mod model;
-mod props;
-mod sha256;
-
-use engine::*;
+use pvharness::engine::{self, *};
+use pvharness::props;
 use std::path::PathBuf;
 
 fn usage() -> ! {
@@ -148,6 +142,64 @@ fn main() {
         }
         "crash-child" => {
             std::process::exit(props::c13::child_main(&a[2..]));
+        }
+        "gen-corpus" => {
+            // pvcheck gen-corpus <dir> [n]: seed inputs for the libFuzzer targets from the harness generators
+            let dir = std::path::PathBuf::from(&a[2]);
+            let n: usize = a.get(3).and_then(|s| s.parse().ok()).unwrap_or(200);
+            use pvharness::props::c03::{corpus_texts, Target};
+            for (name, targets) in [
+                ("event_json", vec![Target::Event]),
+                ("filter_json", vec![Target::Filter]),
+                ("tags_json", vec![Target::Tags]),
+                ("unescape", vec![Target::Unescape]),
+                ("hexaddr", vec![Target::HexId, Target::HexSig, Target::Hll, Target::Addr]),
+            ] {
+                let d = dir.join(name);
+                let _ = std::fs::create_dir_all(&d);
+                let mut k = 0;
+                for (ti, t) in targets.iter().enumerate() {
+                    for text in corpus_texts(*t, n / targets.len(), seed + ti as u64) {
+                        let mut text = text;
+                        if name == "hexaddr" {
+                            // first byte selects the entry point
+                            text = [vec![match t { Target::HexId => 0u8, Target::HexPubkey => 1, Target::HexSig => 2, Target::Hll => 3, _ => 4 }], text[2..].to_vec()].concat();
+                        }
+                        let _ = std::fs::write(d.join(format!("gen-{k:04}")), text);
+                        k += 1;
+                    }
+                }
+                println!("{name}: {k} inputs");
+            }
+            std::process::exit(0);
+        }
+        "fuzz-one" => {
+            // pvcheck fuzz-one <target> <file>...: the libFuzzer target's oracle on saved inputs (plain regression path)
+            if a.len() < 4 {
+                usage();
+            }
+            let known = load_known();
+            let mut rc = 0;
+            for file in &a[3..] {
+                let data = match std::fs::read(file) {
+                    Ok(d) => d,
+                    Err(e) => {
+                        eprintln!("cannot read {file}: {e}");
+                        rc = rc.max(2);
+                        continue;
+                    }
+                };
+                for (prop, f) in pvharness::fuzzdec::run_target(&a[2], &data) {
+                    if open_keys(&known, prop).contains(&f.key) {
+                        println!("KNOWN-FINDING: property={} key={}", prop, f.key);
+                    } else {
+                        println!("VIOLATION property={} replay={} key={}", prop, file, f.key);
+                        println!("  detail: {}", f.detail);
+                        rc = 1;
+                    }
+                }
+            }
+            std::process::exit(rc);
         }
         "isolated" => {
             if a.len() < 4 {
